@@ -12,6 +12,8 @@ A = ['self->tok', 'g_rem', 'self->lexer.mode', 'g_errors', 'g_actions']
 KEEP = '((self->tok.tokenKind == %s) ==> g_rem == 0) && g_rem <= OLD(g_rem) && self->tok.tokenKind >= 0 && self->tok.tokenKind <= 20' % EOF_
 KEEPL = '((self->tok.tokenKind == %s) ==> g_rem == 0)' % EOF_
 NONE = 'self->lexer.mode == Lexer_LexingMode_None'
+# the token after a Newline starts a new line: it must be lexed in mode None (in any other mode keywords come back as identifiers, text as one string)
+NLMODE = ('P:C17', '(self->tok.tokenKind == %sNewline) ==> self->lexer.mode == Lexer_LexingMode_None' % K)
 ATEND = '(OLD(g_rem) == 0) ==> self->tok.tokenKind == %s' % EOF_          # once the input is used up every further token is EndOfFile
 STAYS = '(OLD(self->tok.tokenKind) == %s) ==> self->tok.tokenKind == %s' % (EOF_, EOF_)
 PROGRESS = '(OLD(self->tok.tokenKind) != %s) ==> %s <= OLD(g_rem)' % (EOF_, M)        # i.e. the measure strictly decreased (it was OLD(g_rem) + 1)
@@ -66,31 +68,31 @@ UNIT = {
     'prelude': '#include "models/base.h"\n#include "models/ninja_parser.h"\n',
     'after_structs': 'static inline struct Token token_new(void) { struct Token t; return t; }\n',
     'stubs': {
-        'Lexer_lex': {'ret': 'struct Token *', 'params': 'struct Lexer *self, struct Token *result', 'requires': [], 'assigns': ['*result', 'g_rem'],
+        'Lexer_lex': {'ret': 'struct Token *', 'params': 'struct Lexer *self, struct Token *result', 'requires': [('P:C17', '(result->tokenKind == %sNewline) ==> self->mode == Lexer_LexingMode_None' % K)], 'assigns': ['*result', 'g_rem'],
                       'ensures': ['result->tokenKind >= 0 && result->tokenKind <= 20',
                                   '(OLD(g_rem) == 0) ? (result->tokenKind == %s && g_rem == 0) : (result->tokenKind != %s && g_rem < OLD(g_rem))' % (EOF_, EOF_), 'RESULT == result']},
     },
     'functions': {
         # (also the first call of parse(), when there is no look-ahead token yet)
         'Parser::ParserImpl::getNextNonCommentToken': {
-            'requires': ['__CPROVER_is_fresh(self, sizeof(*self))', 'g_rem <= ((size_t)1 << 31)'], 'assigns': ['self->tok', 'g_rem'],
+            'requires': ['__CPROVER_is_fresh(self, sizeof(*self))', 'g_rem <= ((size_t)1 << 31)', NLMODE], 'assigns': ['self->tok', 'g_rem'],
             'ensures': [('P:C19', KEEP), ('P:C19', '%s <= OLD(g_rem)' % M), ('P:C17', 'self->tok.tokenKind != %sComment' % K), ATEND],
             # comments are skipped; every comment token consumes input, so the loop ends
-            'loops': {0: {'assigns': ['self->tok', 'g_rem'], 'invariant': ['g_rem <= __CPROVER_loop_entry(g_rem)'], 'decreases': 'g_rem'}}},
-        'Parser::ParserImpl::consumeToken': P(mode_none=False, extra_ens=['self->lexer.mode == OLD(self->lexer.mode)', ATEND]),
-        'Parser::ParserImpl::consumeExpectedToken': P(mode_none=False, extra_ens=['self->lexer.mode == OLD(self->lexer.mode)', 'RESULT.tokenKind == OLD(self->tok.tokenKind)', ATEND]),
-        'Parser::ParserImpl::consumeIfToken': P(mode_none=False, progress=False, extra_ens=[('P:C19', '(RESULT != 0 && OLD(self->tok.tokenKind) != %s) ==> %s <= OLD(g_rem)' % (EOF_, M)),'self->lexer.mode == OLD(self->lexer.mode)', '(RESULT != 0) == (OLD(self->tok.tokenKind) == kind)',
+            'loops': {0: {'assigns': ['self->tok', 'g_rem'], 'invariant': ['g_rem <= __CPROVER_loop_entry(g_rem)', NLMODE[1]], 'decreases': 'g_rem'}}},
+        'Parser::ParserImpl::consumeToken': P(mode_none=False, extra_req=[NLMODE], extra_ens=['self->lexer.mode == OLD(self->lexer.mode)', ATEND]),
+        'Parser::ParserImpl::consumeExpectedToken': P(mode_none=False, extra_req=[NLMODE], extra_ens=['self->lexer.mode == OLD(self->lexer.mode)', 'RESULT.tokenKind == OLD(self->tok.tokenKind)', ATEND]),
+        'Parser::ParserImpl::consumeIfToken': P(mode_none=False, progress=False, extra_req=[('P:C17', '(self->tok.tokenKind == %sNewline && kind == %sNewline) ==> self->lexer.mode == Lexer_LexingMode_None' % (K, K))], extra_ens=[('P:C19', '(RESULT != 0 && OLD(self->tok.tokenKind) != %s) ==> %s <= OLD(g_rem)' % (EOF_, M)),'self->lexer.mode == OLD(self->lexer.mode)', '(RESULT != 0) == (OLD(self->tok.tokenKind) == kind)',
                                                                     '(RESULT == 0) ==> (self->tok.tokenKind == OLD(self->tok.tokenKind) && g_rem == OLD(g_rem))']),
-        'Parser::ParserImpl::skipPastEOL': P(loops={0: {'assigns': ['self->tok', 'g_rem'], 'invariant': [KEEPL + ' && g_rem <= __CPROVER_loop_entry(g_rem) && self->tok.tokenKind >= 0 && self->tok.tokenKind <= 20 && ((__CPROVER_loop_entry(self->tok.tokenKind) == %s) ==> self->tok.tokenKind == %s)' % (EOF_, EOF_)], 'decreases': M}}, mode_none=False, extra_ens=['self->lexer.mode == OLD(self->lexer.mode)', ATEND]),
+        'Parser::ParserImpl::skipPastEOL': P(extra_req=[('P:C17', NONE)], loops={0: {'assigns': ['self->tok', 'g_rem'], 'invariant': [KEEPL + ' && g_rem <= __CPROVER_loop_entry(g_rem) && self->tok.tokenKind >= 0 && self->tok.tokenKind <= 20 && ((__CPROVER_loop_entry(self->tok.tokenKind) == %s) ==> self->tok.tokenKind == %s)' % (EOF_, EOF_)], 'decreases': M}}, mode_none=False, extra_ens=['self->lexer.mode == OLD(self->lexer.mode)', ATEND]),
         'Parser::ParserImpl::parseBindingInternal': P(extra_req=['__CPROVER_is_fresh(name_out, sizeof(*name_out))', '__CPROVER_is_fresh(value_out, sizeof(*value_out))'], extra_assigns=['*name_out', '*value_out'],
                                               extra_ens=[('P:C17', 'RESULT ==> (name_out->tokenKind == %sIdentifier && value_out->tokenKind == %sString)' % (K, K))]),
         'Parser::ParserImpl::parseBindingDecl': P(),
-        'Parser::ParserImpl::parseDefaultDecl': P(loops={0: LOOP('1', ['names.n'])}),
-        'Parser::ParserImpl::parseIncludeDecl': P(),
-        'Parser::ParserImpl::parseBuildSpecifier': P(extra_req=['__CPROVER_is_fresh(decl_out, sizeof(*decl_out))'], extra_assigns=['*decl_out'],
+        'Parser::ParserImpl::parseDefaultDecl': P(extra_req=['self->tok.tokenKind == %sKWDefault' % K], loops={0: LOOP('1', ['names.n'])}),
+        'Parser::ParserImpl::parseIncludeDecl': P(extra_req=['self->tok.tokenKind == %sKWInclude || self->tok.tokenKind == %sKWSubninja' % (K, K)]),
+        'Parser::ParserImpl::parseBuildSpecifier': P(extra_req=['__CPROVER_is_fresh(decl_out, sizeof(*decl_out))', 'self->tok.tokenKind == %sKWBuild' % K], extra_assigns=['*decl_out'],
                                                      loops={0: LOOP('self->tok.tokenKind == %sString' % K, ['outputs.n']), 1: LOOP('1', ['inputs.n']), 2: LOOP('1', ['inputs.n']), 3: LOOP('1', ['inputs.n'])}),
-        'Parser::ParserImpl::parsePoolSpecifier': P(extra_req=['__CPROVER_is_fresh(decl_out, sizeof(*decl_out))'], extra_assigns=['*decl_out']),
-        'Parser::ParserImpl::parseRuleSpecifier': P(extra_req=['__CPROVER_is_fresh(decl_out, sizeof(*decl_out))'], extra_assigns=['*decl_out']),
+        'Parser::ParserImpl::parsePoolSpecifier': P(extra_req=['__CPROVER_is_fresh(decl_out, sizeof(*decl_out))', 'self->tok.tokenKind == %sKWPool' % K], extra_assigns=['*decl_out']),
+        'Parser::ParserImpl::parseRuleSpecifier': P(extra_req=['__CPROVER_is_fresh(decl_out, sizeof(*decl_out))', 'self->tok.tokenKind == %sKWRule' % K], extra_assigns=['*decl_out']),
         'Parser::ParserImpl::parseParameterizedDecl': P(loops={0: LOOP(NONE), 1: LOOP(NONE + ' && (kind == %sKWBuild || kind == %sKWPool || kind == %sKWRule)' % (K, K, K))},
                                                 extra_req=['self->tok.tokenKind == %sKWBuild || self->tok.tokenKind == %sKWPool || self->tok.tokenKind == %sKWRule' % (K, K, K)]),
         'Parser::ParserImpl::parseDecl': P(extra_req=[NONE]),
